@@ -245,7 +245,8 @@ def fuse_elems(t: T) -> T:
     return cur
 
 
-def extra_defaults(f, known: Iterable[str]) -> Optional[Dict[str, T]]:
+def extra_defaults(f, known: Iterable[str], prog=None
+                   ) -> Optional[Dict[str, T]]:
     """constant defaults of the parameters a function has gained beyond the
     ones a rule knows: the property quantifies over the documented call
     forms, i.e. over the new optional parameters at their defaults.  None if
@@ -258,9 +259,20 @@ def extra_defaults(f, known: Iterable[str]) -> Optional[Dict[str, T]]:
     out = {}
     for p in f.params[len(known):] + list(f.kwonly):
         d = dflt.get(p)
-        if not isinstance(d, _ast.Constant):
+        if isinstance(d, _ast.Constant):
+            out[p] = const(d.value)
+            continue
+        if d is None or prog is None:
             return None
-        out[p] = const(d.value)
+        # an enum member / named constant as default
+        from .interp import Interp, Frame
+        v = Interp(prog).eval(d, Frame(None, f.module, {}, {}, None, 99),
+                              tm.TRUE)
+        while v.op == "named":
+            v = v.args[1]
+        if v.op not in ("const", "enum"):
+            return None
+        out[p] = v
     return out
 
 
